@@ -43,3 +43,9 @@ Theorem C12_head_shape : forall m routed raw h peer,
   concat (map (fun kv => fst kv ++ B ": " ++ snd kv ++ CRLF) (upstream_headers h peer)) ++ CRLF.
 Proof. reflexivity. Qed.
 Print Assumptions C12_head_shape.
+
+(* the query string written upstream decodes to exactly what the client's query string decodes to: existing escapes are
+   kept, a literal '%' stays literal, every other byte is kept or escaped *)
+Theorem C12_upstream_query_same : forall q, pct_decode (to_pct QUERY_KEEP q) = pct_decode q.
+Proof. exact upstream_query_same. Qed.
+Print Assumptions C12_upstream_query_same.
